@@ -631,14 +631,14 @@ func runC01(cfg *vh.Config) error {
 		g.fill(m, 1)
 		er.roundTrip("big", t, m, flats[t])
 	}
-	for i := 0; i < cfg.Scale(600, 12000); i++ {
+	for i := 0; i < cfg.Scale(480, 12000); i++ {
 		t := pick()
 		g := &msgGen{r: r, maxDepth: 2, fieldPct: vh.Pick(r, []int{3, 6}), maxEntries: 2, emptySubs: 30}
 		m := t.New()
 		g.fill(m, 1)
 		er.roundTrip("sparse", t, m, flats[t])
 	}
-	for i := 0; i < cfg.Scale(800, 16000); i++ {
+	for i := 0; i < cfg.Scale(680, 16000); i++ {
 		t := pick()
 		g := &msgGen{r: r, maxDepth: r.Range(1, 5), fieldPct: vh.Pick(r, []int{10, 20, 35, 60}), maxEntries: r.Range(1, 3), emptySubs: vh.Pick(r, []int{0, 10, 30})}
 		m := t.New()
@@ -657,7 +657,7 @@ func runC01(cfg *vh.Config) error {
 	} {
 		er.roundTrip("non-finite-float", full, m.ProtoReflect(), flats[full])
 	}
-	for i := 0; i < cfg.Scale(150, 3000); i++ {
+	for i := 0; i < cfg.Scale(100, 3000); i++ {
 		t := pick()
 		g := &msgGen{r: r, maxDepth: r.Range(1, 3), fieldPct: vh.Pick(r, []int{10, 30, 60}), maxEntries: r.Range(1, 3), nonFinite: true}
 		m := t.New()
